@@ -5,6 +5,7 @@
 (* back inside the writing session), then opened by a second, read-only        *)
 (* library object that lists the keys and reads every object back.             *)
 (* Events carry the ABSTRACTION of the real objects (adapter c01_lib):         *)
+(*   forget  (library objects dropped, file stays)   open carries ow = overwrite *)
 (*   legacy {kind}            lput {k, x}  (record placed by the harness's own   *)
 (*   open {h, kind, out, keys}             legacy encoder, or a genuine one)    *)
 (*   put {k, x, out}          get {h, k, out, x}                                *)
@@ -28,7 +29,7 @@ ToSet(s) == {s[i] : i \in 1..Len(s)}
 
 TLegacy == /\ Ev.ev = "legacy" /\ MakeLegacy(Ev.kind)
 TLPut   == /\ Ev.ev = "lput" /\ LegacyPut(Ev.k, Ev.x)                      \* a record a previous molli left in the file
-TOpen   == /\ Ev.ev = "open" /\ OpenLib(Ev.h, Ev.kind)
+TOpen   == /\ Ev.ev = "open" /\ OpenLib(Ev.h, Ev.kind, Ev.ow)
            /\ last'.out = Ev.out
            /\ Ev.out = "ok" => ToSet(Ev.keys) = DOMAIN file'.recs          \* the new object lists exactly the stored keys
 TPut    == /\ Ev.ev = "put" /\ Put(Ev.k, Ev.x)                             \* not enabled outside Dom(v): see the check
@@ -40,9 +41,10 @@ TGet    == /\ Ev.ev = "get" /\ Get(Ev.h, Ev.k)
            /\ Holds(Same(written[Ev.k], Ev.x))                             \* C01
 
 TScribble == /\ Ev.ev = "scribble" /\ Scribble(Ev.h, Ev.k)                \* the harness edited the object it was handed
+TForget == /\ Ev.ev = "forget" /\ Forget                                  \* the library objects are dropped, the file stays
 TRemove == /\ Ev.ev = "remove" /\ Remove                                  \* the harness removed the file; the path is reused
 Step == /\ ti <= NT /\ l <= Len(Tr)
-        /\ (TLegacy \/ TLPut \/ TOpen \/ TPut \/ TGet \/ TScribble \/ TRemove)
+        /\ (TLegacy \/ TLPut \/ TOpen \/ TPut \/ TGet \/ TScribble \/ TRemove \/ TForget)
         /\ l' = l + 1 /\ ti' = ti
 
 Reset == /\ file' = [exists |-> FALSE, magic |-> "none", kind |-> "none", recs |-> NoRecs]
